@@ -143,6 +143,8 @@ pub enum OutKind {
     Ok {
         value: Option<String>,
         stmts: Vec<String>,
+        /// the last statement of the input is an expression statement
+        last_is_expr: bool,
     },
     Err {
         stage: &'static str,
@@ -174,7 +176,7 @@ impl Outcome {
     /// Comparable text without the printed output.
     pub fn result_text(&self) -> String {
         match &self.kind {
-            OutKind::Ok { value, stmts } => format!(
+            OutKind::Ok { value, stmts, .. } => format!(
                 "Ok(value={}; stmts={})",
                 value.as_deref().unwrap_or("-"),
                 stmts.join(" ⏎ ")
@@ -245,6 +247,78 @@ pub fn classify(err: &NumbatError) -> (&'static str, String) {
     }
 }
 
+/// Interpret one input on `ctx` and turn everything observable into an `Outcome`.
+pub fn interpret_outcome(
+    ctx: &mut Context,
+    text: &str,
+    vm_fault: Option<u64>,
+    source: CodeSource,
+) -> Outcome {
+    let prints: Arc<Mutex<Vec<String>>> = Arc::new(Mutex::new(vec![]));
+    let prints_c = prints.clone();
+    let mut settings = InterpreterSettings {
+        print_fn: Box::new(move |m: &Markup| {
+            prints_c.lock().unwrap().push(m.to_string());
+        }),
+    };
+    numbat::verif::reset();
+    numbat::verif::set_budget(Some(STEP_BUDGET));
+    if let Some(n) = vm_fault {
+        numbat::verif::arm(n);
+    }
+    let r = trap(|| {
+        match ctx.interpret_with_settings(&mut settings, text, source) {
+            Ok((stmts, result)) => {
+                let value = if result.is_value() {
+                    Some(
+                        result
+                            .to_markup(
+                                stmts.last(),
+                                ctx.dimension_registry(),
+                                true,
+                                true,
+                                &FormatOptions::default(),
+                            )
+                            .to_string()
+                            .trim()
+                            .to_string(),
+                    )
+                } else {
+                    None
+                };
+                let last_is_expr = stmts
+                    .last()
+                    .map(|s| s.as_expression().is_some())
+                    .unwrap_or(false);
+                let stmts = stmts
+                    .iter()
+                    .map(|s| s.pretty_print().to_string())
+                    .collect();
+                OutKind::Ok {
+                    value,
+                    stmts,
+                    last_is_expr,
+                }
+            }
+            Err(e) => {
+                let (stage, msg) = classify(&e);
+                OutKind::Err { stage, msg }
+            }
+        }
+    });
+    numbat::verif::disarm();
+    let steps = numbat::verif::steps();
+    VM_STEPS_TOTAL.with(|c| c.set(c.get() + steps));
+    INPUTS_TOTAL.with(|c| c.set(c.get() + 1));
+    drop(settings);
+    let prints = std::mem::take(&mut *prints.lock().unwrap());
+    let kind = match r {
+        Ok(k) => k,
+        Err(p) => OutKind::Panic(p),
+    };
+    Outcome { kind, prints }
+}
+
 impl Sess {
     pub fn new(importer: SimImporter) -> Self {
         Sess {
@@ -263,62 +337,7 @@ impl Sess {
         vm_fault: Option<u64>,
         source: CodeSource,
     ) -> Outcome {
-        let prints: Arc<Mutex<Vec<String>>> = Arc::new(Mutex::new(vec![]));
-        let prints_c = prints.clone();
-        let mut settings = InterpreterSettings {
-            print_fn: Box::new(move |m: &Markup| {
-                prints_c.lock().unwrap().push(m.to_string());
-            }),
-        };
-        numbat::verif::reset();
-        numbat::verif::set_budget(Some(STEP_BUDGET));
-        if let Some(n) = vm_fault {
-            numbat::verif::arm(n);
-        }
-        let ctx = &mut self.ctx;
-        let r = trap(|| {
-            match ctx.interpret_with_settings(&mut settings, text, source) {
-                Ok((stmts, result)) => {
-                    let value = if result.is_value() {
-                        Some(
-                            result
-                                .to_markup(
-                                    stmts.last(),
-                                    ctx.dimension_registry(),
-                                    true,
-                                    true,
-                                    &FormatOptions::default(),
-                                )
-                                .to_string()
-                                .trim()
-                                .to_string(),
-                        )
-                    } else {
-                        None
-                    };
-                    let stmts = stmts
-                        .iter()
-                        .map(|s| s.pretty_print().to_string())
-                        .collect();
-                    OutKind::Ok { value, stmts }
-                }
-                Err(e) => {
-                    let (stage, msg) = classify(&e);
-                    OutKind::Err { stage, msg }
-                }
-            }
-        });
-        numbat::verif::disarm();
-        let steps = numbat::verif::steps();
-        VM_STEPS_TOTAL.with(|c| c.set(c.get() + steps));
-        INPUTS_TOTAL.with(|c| c.set(c.get() + 1));
-        drop(settings);
-        let prints = std::mem::take(&mut *prints.lock().unwrap());
-        let kind = match r {
-            Ok(k) => k,
-            Err(p) => OutKind::Panic(p),
-        };
-        Outcome { kind, prints }
+        interpret_outcome(&mut self.ctx, text, vm_fault, source)
     }
 
     /// Number of VM instructions the input would execute (dry run on a clone).
